@@ -24,6 +24,9 @@ import traceback
 VERIF = os.path.dirname(os.path.dirname(os.path.abspath(__file__)))
 REPO = os.environ.get('NV_REPO', '/repo')
 PYTHON = '/venv/bin/python'
+# evidence/ and replays/ go under OUT (default: /verif itself); sensitivity
+# runs against scratch trees redirect it so they never touch real evidence.
+OUT = os.environ.get('NV_OUT', VERIF)
 PROPS = ['C%02d' % i for i in range(1, 17)]
 
 
@@ -508,9 +511,9 @@ def run_property(prop, tier):
                     case, detail = case2, detail2
             except BaseException:
                 notes.append('minimize failed for ' + b)
-        os.makedirs(os.path.join(VERIF, 'replays'), exist_ok=True)
+        os.makedirs(os.path.join(OUT, 'replays'), exist_ok=True)
         safe = ''.join(ch if ch.isalnum() else '_' for ch in b)[:60]
-        path = os.path.join(VERIF, 'replays', '%s-%s-%s.json' % (
+        path = os.path.join(OUT, 'replays', '%s-%s-%s.json' % (
             prop, safe, case_hash(case)))
         with open(path, 'w') as f:
             json.dump(dict(property=prop, bucket=b, detail=detail,
@@ -550,8 +553,8 @@ def run_property(prop, tier):
               coverage=cov, assumptions=list(mod.ASSUMPTIONS),
               wall_s=round(time.time() - t0, 2), violations=n_viol,
               technique=mod.TECHNIQUE, repo=REPO)
-    os.makedirs(os.path.join(VERIF, 'evidence'), exist_ok=True)
-    evp = os.path.join(VERIF, 'evidence', prop + '.json')
+    os.makedirs(os.path.join(OUT, 'evidence'), exist_ok=True)
+    evp = os.path.join(OUT, 'evidence', prop + '.json')
     with open(evp + '.tmp', 'w') as f:
         json.dump(ev, f, indent=1, default=_json_default)
     os.replace(evp + '.tmp', evp)
